@@ -20,27 +20,39 @@ let outcome_ints (o : Big_int_Z.big_int list Model.outcome) = match o with
   | Model.Fuel -> "FUEL"
 
 (* drives a call-by-call reader model with the destination-size history (cycled; a zero size never
-   ends the loop), exactly like the harness drives the implementation *)
+   ends the loop), exactly like the harness drives the implementation.  [cap] is an output budget:
+   no call asks for more than cap + 1 - (bytes so far), and the run stops with CAP once more than
+   cap bytes have been returned (damaged size fields can promise megabytes). *)
 let drive (read : 'st -> Big_int_Z.big_int -> (Big_int_Z.big_int list * 'st) Model.outcome)
-          (unconsumed : 'st -> Big_int_Z.big_int list) (st0 : 'st) (szs : string) : string =
+          (unconsumed : 'st -> Big_int_Z.big_int list) (st0 : 'st) (szs : string) (cap : int) : string =
   let szl = ints szs in
-  let rec loop st rest acc n =
+  let rec loop st rest acc total n =
     if n > 50000000 then "FUEL" else
     let (szv, rest') = match rest with
       | [] -> (match szl with [] -> (z 4096, []) | x :: r -> (x, r))
       | x :: r -> (x, r) in
-    match read st szv with
+    let want = min (zi szv) (cap + 1 - total) in
+    match read st (z want) with
     | Model.Ok (out, st1) ->
-      if Big_int_Z.sign_big_int szv > 0 && out = [] then
+      if want > 0 && out = [] then
         "END " ^ hex (List.concat (List.rev acc)) ^ " " ^ string_of_int (List.length (unconsumed st1))
-      else loop st1 rest' (out :: acc) (n + 1)
+      else begin
+        let total1 = total + List.length out in
+        if total1 > cap then "CAP " ^ hex (List.concat (List.rev (out :: acc)))
+        else loop st1 rest' (out :: acc) total1 (n + 1)
+      end
     | Model.Err c -> if zi c = 77 then "SKIP" else "ERR" ^ sz c ^ " " ^ hex (List.concat (List.rev acc))
     | Model.Panic _ -> "PANIC"
     | Model.Fuel -> "FUEL" in
-  loop st0 [] [] 0
+  loop st0 [] [] 0 0
 
-(* the whole-file function must agree with the call-by-call model on the final result *)
+(* the whole-file function must agree with the call-by-call model on the final result (it runs
+   with the same output budget per block; running out of it is not a disagreement) *)
 let cross (obs : string) (whole : (Big_int_Z.big_int list * Big_int_Z.big_int list) Model.outcome) : string =
+  if String.length obs >= 3 && String.sub obs 0 3 = "CAP" then obs else
+  match whole with
+  | Model.Fuel -> obs
+  | _ ->
   let w = match whole with
     | Model.Ok (c, r) -> "END " ^ hex c ^ " " ^ string_of_int (List.length r)
     | Model.Err c -> if zi c = 77 then "SKIP" else "ERR" ^ sz c
@@ -52,22 +64,22 @@ let cross (obs : string) (whole : (Big_int_Z.big_int list * Big_int_Z.big_int li
     else obs = w in
   if agree then obs else obs ^ " WHOLE-FILE-MODEL-DIFFERS:" ^ (if String.length w > 80 then String.sub w 0 80 else w)
 
-let has_zero szs = List.exists (fun x -> Big_int_Z.sign_big_int x = 0) (ints szs)
-
 let xz_read fx with_cross = function
-  | multi :: skip :: file :: szs :: _ ->
+  | multi :: skip :: file :: szs :: cap :: _ ->
     if skip = "1" then "SKIP" else
     let src = unhex file in
     let m = (multi = "1") in
-    let obs = drive (Model.xzr_read fx) Model.xzr_unconsumed (Model.xzr_new src m) szs in
-    if with_cross then cross obs (Model.xz_decode_c fx m src) else obs
+    let cap = int_of_string cap in
+    let obs = drive (Model.xzr_read fx) Model.xzr_unconsumed (Model.xzr_new src m) szs cap in
+    if with_cross then cross obs (Model.xz_decode_capped fx m (z cap) src) else obs
   | _ -> "BADARGS"
 
 let lzip_read fx with_cross = function
-  | file :: szs :: _ ->
+  | file :: szs :: cap :: _ ->
     let src = unhex file in
-    let obs = drive (Model.lzr_read fx) Model.lzr_unconsumed (Model.lzr_new src) szs in
-    if with_cross then cross obs (Model.lz_decode_c fx src) else obs
+    let cap = int_of_string cap in
+    let obs = drive (Model.lzr_read fx) Model.lzr_unconsumed (Model.lzr_new src) szs cap in
+    if with_cross then cross obs (Model.lz_decode_capped fx (z cap) src) else obs
   | _ -> "BADARGS"
 
 let install register =
@@ -81,16 +93,16 @@ let install register =
       outcome_ints (Model.xz_block_sizes_entry Model.xz_orig (optz bs) (zs d) (zeros_of_lens lens)) | _ -> "BADARGS");
   register "xz_read" (xz_read Model.xz_fixed true);
   register "xz_read_old" (xz_read Model.xz_orig false);
-  register "xz_spec" (function lenient :: skip :: file :: _ ->
+  register "xz_spec" (function lenient :: skip :: file :: cap :: _ ->
       if skip = "1" then "SKIP" else
-      (match Model.xz_spec_decode_c (lenient = "1") (unhex file) with Some d -> "OK " ^ hex d | None -> "REJECT") | _ -> "BADARGS");
+      (match Model.xz_spec_decode_capped (lenient = "1") (zs cap) (unhex file) with Some d -> "OK " ^ hex d | None -> "REJECT") | _ -> "BADARGS");
   register "lzip_write" (function d :: ms :: parts :: pls :: _ ->
       outcome_bytes (Model.lz_write_entry (zs d) (optz ms) (unhex_parts parts) (unhex_parts pls)) | _ -> "BADARGS");
   register "lzip_sizes" (function d :: ms :: lens :: _ ->
       outcome_ints (Model.lz_member_sizes_entry (zs d) (optz ms) (zeros_of_lens lens)) | _ -> "BADARGS");
   register "lzip_read" (lzip_read Model.lz_fixed true);
   register "lzip_read_old" (lzip_read Model.lz_orig false);
-  register "lzip_spec" (function file :: _ ->
-      (match Model.lz_spec_decode_c (unhex file) with
-       | Some (d, t) -> "OK " ^ hex d ^ " " ^ string_of_int (List.length t)
+  register "lzip_spec" (function file :: cap :: _ ->
+      (match Model.lz_spec_decode_capped (zs cap) (unhex file) with
+       | Some (d, _) -> "OK " ^ hex d
        | None -> "REJECT") | _ -> "BADARGS")
